@@ -18,7 +18,7 @@ pub fn props() -> Vec<Prop> {
         id: "C04",
         run: c04,
         tools: Some(miri_step),
-        rule: "(1) controlled scheduler over the guard hook: real threads run the real Memfs, one runnable at a time, yield points at the start of every call and before every guard acquisition made while holding no guard; every schedule of every small program is enumerated depth-first by re-execution (quick: all 2-thread x 1-call programs over the ~45-call alphabet + seeded 2x2 / 3x1 / 2x3 programs; thorough: + 3x2 programs and more seeds; schedule cap 4000 per program, a cap hit is inconclusive). Each execution is checked for linearizability against SEQUENTIAL MEMFS ITSELF (some order of the calls respecting program order and real-time precedence gives every call the same result and the same final snapshot), append exactly-once (unique tokens), nested guard acquisition, panics / poisoned lock, and the C03 walker at quiescence. (2) free-running stress: the same programs and 8-thread mixes released by a barrier on 16 cores, stamped by a global atomic clock, same checks, plus a wait-state monitor fed by the guard events (all threads inside before-acquire..release with no guard event for 30 s = deadlock certificate); the evidence counts how many call pairs really overlapped. (3) Miri (-Zmiri-many-seeds) on a hook-free executor: data races, deadlocks, UB under its own randomised preemption. distinct_nontrivial = distinct (program shape, operation multiset, linearizable?) tuples + distinct schedules. Later additions to the alphabet: relative-path calls next to the calls that move the cwd; children for the directory that remove() takes away. An execution in which a multi-entry call failed half way (other than DoesNotExist) is not judged for linearizability (counted).",
+        rule: "(1) controlled scheduler over the guard hook: real threads run the real Memfs, one runnable at a time, yield points at the start of every call and before every guard acquisition made while holding no guard; every schedule of every small program is enumerated depth-first by re-execution (quick: all 2-thread x 1-call programs over the ~45-call alphabet + seeded 2x2 / 3x1 / 2x3 programs; thorough: + 3x2 programs and more seeds; schedule cap 4000 per program, a cap hit is inconclusive). Each execution is checked for linearizability against SEQUENTIAL MEMFS ITSELF (some order of the calls respecting program order and real-time precedence gives every call the same result and the same final snapshot), append exactly-once (unique tokens), nested guard acquisition, panics / poisoned lock, and the C03 walker at quiescence. (2) free-running stress: the same programs and 8-thread mixes released by a barrier on 16 cores, stamped by a global atomic clock, same checks, plus a wait-state monitor fed by the guard events (all threads inside before-acquire..release with no guard event for 30 s = deadlock certificate); the evidence counts how many call pairs really overlapped. (3) Miri (-Zmiri-many-seeds) on a hook-free executor: data races, deadlocks, UB under its own randomised preemption. distinct_nontrivial = distinct (program shape, operation multiset, linearizable?) tuples + distinct schedules. Later additions to the alphabet: relative-path calls next to the calls that move the cwd; children for the directory that remove() takes away. An execution in which a multi-entry call failed half way (other than DoesNotExist) is not judged for linearizability (counted). Metadata queries racing against a move that replaces the file by one with other ids and another mode; handle opens that always fail; directed handle life-cycle programs (a write()/append() handle against pairs of calls that remove its file or put a link, a directory or another file in its place) - executions with an open handle are judged on returning, panics, poisoning and integrity, not on linearizability.",
         assumptions: &[
             "guard-boundary granularity is complete as long as all shared state stays behind read_guard/write_guard (cross-checked by Miri's race detector)",
             "the sequential specification is Memfs itself, so C04 does not depend on the reference model of C01",
@@ -325,6 +325,13 @@ impl Checker {
         if partial {
             rep.count("linearizability_not_judged:multi-entry-call-failed-half-way", 1);
         }
+        // a handle that could be opened is several calls (open, flush, drop) under separate guards by design: such an
+        // execution is judged on everything else (every call returns, no panic, no poisoned lock, integrity)
+        let handles = calls.iter().any(|c| matches!(&c.op, Op::WriteH(p, _) | Op::AppendH(p, _) if p != "/" && p != "/nope/x"));
+        if handles {
+            rep.count("linearizability_not_judged:execution-with-an-open-handle", 1);
+        }
+        let partial = partial || handles;
         if ok && !partial && !linearizable(calls, &snapshot_key(snap), &mut self.cache) {
             ok = false;
             rep.violation(&format!("conc:{}:linearizable→no-sequential-order-explains-it", ops), wit("no order of the calls consistent with program order and real-time precedence reproduces these results and this final state on a sequential Memfs".into(), calls));
@@ -531,6 +538,9 @@ pub fn quiescence_integrity(ctx: &Ctx, rep: &mut Report) {
 
 fn c04(ctx: &Ctx, rep: &mut Report) {
     install_hook();
+    // a worker that is killed while an execution is under way (a panic inside a destructor that runs during unwinding
+    // aborts the process) leaves a crash record naming the program, reported like a deadlock
+    CRASH_ATTRIBUTION.store(true, Ordering::SeqCst);
     let alpha = alphabet();
     let mut chk = Checker { cache: HashMap::new() };
     let cap = 4000;
@@ -544,6 +554,30 @@ fn c04(ctx: &Ctx, rep: &mut Report) {
             }
             let program = vec![vec![fresh_payload(a)], vec![fresh_payload(b)]];
             explore_program(&program, &mut chk, rep, cap);
+        }
+    }
+    // (a2) the life cycle of a handle against calls that take its file away or put something else in its place
+    // between open, flush and drop (removed, replaced by a link / a directory / another file, the directory gone)
+    for p in ["/d/f", "/d/g"] {
+        let s = |x: &str| x.to_string();
+        let other = if p == "/d/f" { "/d/g" } else { "/d/f" };
+        let pool = vec![Op::Remove(s(p)), Op::Symlink(s(p), s(other)), Op::Symlink(s(p), s("/d/missing")), Op::MkdirP(s(p)), Op::Mkfile(s(p)), Op::MoveP(s("/d/h"), s(p)), Op::RemoveAll(s("/d"))];
+        for h in [Op::WriteH(s(p), vec![]), Op::AppendH(s(p), vec![])] {
+            for x in &pool {
+                for y in &pool {
+                    idx += 1;
+                    if !ctx.mine(idx) {
+                        continue;
+                    }
+                    let program = vec![vec![match &h {
+                        Op::WriteH(q, _) => Op::WriteH(q.clone(), tok()),
+                        Op::AppendH(q, _) => Op::AppendH(q.clone(), tok()),
+                        o => o.clone(),
+                    }], vec![x.clone(), y.clone()]];
+                    explore_program(&program, &mut chk, rep, cap);
+                    rep.count("handle_life_cycle_programs", 1);
+                }
+            }
         }
     }
     // (b) seeded larger programs
